@@ -231,11 +231,17 @@ def run(repo: Repo, rep: Report, tier: str) -> None:
     n_flows = 0
     for fn in ("_configure_decider", "_configure_arithmetic"):
         f = emit_cls.methods[fn]
+        from ..sides import mirrored_stores
+        mirrored7, _mp7 = mirrored_stores(repo, f)
         for key, side, slot, node in side_flows(f):
             ss = slot_side(slot)
             if ss is None:
                 continue
             n_flows += 1
+            if id(node) in mirrored7:
+                okm = (side == "right" and ss == "left") or (side == "left" and ss == "either")
+                rep.check(okm, "C07-R4", f"{fn}: value of '{key}' feeds {slot} in the mirrored (constant-first) comparison", "sides swapped together with the comparator" if okm else "operand sides inconsistent in the mirrored branch", f.loc(node))
+                continue
             rep.check(ss in (side, "either"), "C07-R4", f"{fn}: value of '{key}' feeds a {side}-hand slot ({slot})",
                       "sides agree" if ss in (side, "either") else f"'{key}' is written into '{slot}': the {('second' if side == 'left' else 'first')} operand is configured from the other operand's data", f.loc(node))
     rep.floor("C07-R4", "operand-side flows in the configurators", n_flows, 8)
